@@ -64,7 +64,13 @@ from apischema.serialization.serialized_methods import (
 )
 from apischema.type_names import TypeNameFactory, get_type_name
 from apischema.types import AnyType, Undefined, UndefinedType
-from apischema.typing import get_args, get_origin, is_typed_dict, is_union
+from apischema.typing import (
+    get_args,
+    get_origin,
+    is_annotated,
+    is_typed_dict,
+    is_union,
+)
 from apischema.utils import (
     context_setter,
     get_origin_or_type,
@@ -138,14 +144,10 @@ class SchemaBuilder(
         self.refs = refs
 
     def ref_schema(self, ref: Optional[str]) -> Optional[JsonSchema]:
-        if ref is None:
+        if ref not in self.refs:
             return None
         elif self._ignore_first_ref:
-            # the first named type must be consumed even if it is not extracted,
-            # otherwise the next one (possibly recursive) would be inlined
             self._ignore_first_ref = False
-            return None
-        elif ref not in self.refs:
             return None
         else:
             assert isinstance(ref, str)
@@ -471,6 +473,10 @@ class SchemaBuilder(
                     ),
                     schema,
                 )
+        if not is_annotated(tp):
+            # _ignore_first_ref only concerns the type visited, not its components,
+            # otherwise a (recursive) named component would be inlined endlessly
+            self._ignore_first_ref = False
         result = super().visit_conversion(tp, conversion, dynamic, next_conversion)
         return full_schema(result, schema)
 
